@@ -13,6 +13,7 @@
    rp_hash stands for the Sha256 states (constant size each): the model keeps the bytes
    absorbed so far as a modelling device; only the NUMBER of its entries is part of the
    footprint claim. *)
+From MLA Require Import Limit.
 From MLA Require Import Base Stream Blocks Writer Repair Total.
 From Coq Require Import ZifyBool ZifyNat ZifyN.
 Open Scope N_scope.
@@ -23,6 +24,7 @@ Definition HasKey {A} (l : list (N * A)) (k : N) : Prop := exists v, assoc l k =
 Definition nbytes (l : list (N * bytes)) : N := fold_right (fun e a => len (snd e) + a) 0 l.
 
 Section Assoc.
+  Context {LIM : Limit}.
   Context {A : Type}.
   Implicit Types l : list (N * A).
 
@@ -169,6 +171,7 @@ Proof. unfold mem. rewrite existsb_app. cbn [existsb]. rewrite orb_false_r. refl
 (* ---------- the writer calls of repair: Ok or WrongWriterState (and the documented
    start_file errors); no Crash arm, no short source ---------- *)
 Section WriterCalls.
+  Context {LIM : Limit}.
   Variable FNMAX : N.
   Variables T_START T_CONTENT T_EOA T_EOF : N.
   Variable H : bytes -> bytes.
@@ -213,12 +216,13 @@ Section WriterCalls.
   Lemma w_finalize_cases order s :
     match w_finalize_with T_START T_CONTENT T_EOA T_EOF order s with
     | (_, Ok _) => True
-    | (_, Err e) => e = EState
+    | (_, Err e) => e = EState \/ e = EDeser     (* EDeser: SerializationError, bincode limit / u32 length *)
     | (_, Crash _) => False
     end.
   Proof.
-    unfold w_finalize_with. destruct (w_final s); [reflexivity|].
-    destruct (w_open s); [exact Logic.I|reflexivity].
+    unfold w_finalize_with. destruct (w_final s); [left; reflexivity|].
+    destruct (w_open s); [|left; reflexivity]. cbv zeta.
+    destruct (lim <? _); [right; reflexivity|]. destruct (2 ^ 32 <=? _); [right; reflexivity|exact Logic.I].
   Qed.
 End WriterCalls.
 
@@ -230,6 +234,7 @@ End WriterCalls.
 #[local] Arguments rp_done {S} _.
 #[local] Arguments rp_hash {S} _.
 Section RepairTotal.
+  Context {LIM : Limit}.
   Variable FNMAX CACHE : N.
   Variables T_START T_CONTENT T_EOA T_EOF : N.
   Variable H : bytes -> bytes.
@@ -590,6 +595,7 @@ End RepairTotal.
 
 (* ---------- the theorems ---------- *)
 Section RepairMain.
+  Context {LIM : Limit}.
   Variable FNMAX CACHE : N.
   Variables T_START T_CONTENT T_EOA T_EOF : N.
   Variable H : bytes -> bytes.
@@ -612,27 +618,28 @@ Section RepairMain.
     change (len (@nil N)) with 0. change (nbytes []) with 0. split; [lia|]. right; reflexivity.
   Qed.
 
-  (* C08 item 7: repair returns a report or WrongWriterState (only when the caller's writer
-     refuses the calls: finalized already, or files left open), never reaches the expect()
+  (* C08 item 7: repair returns a report, WrongWriterState (only when the caller's writer
+     refuses the calls: finalized already, or files left open) or SerializationError (EDeser:
+     the footer of the output exceeds BINCODE_MAX_DESERIALIZE), never reaches the expect()
      sites or any other Crash site, never runs out of fuel when fuel > remaining bytes *)
   Theorem repair_total_strong fuel s0 out0 : I s0 -> (N.to_nat (remaining S pos M s0) < fuel)%nat ->
     match repair fuel s0 out0 with
     | Ok _ => True
-    | Err e => e = EState
+    | Err e => e = EState \/ e = EDeser
     | Crash _ => False
     end.
   Proof.
     intros Hs Hf. unfold Repair.repair.
     pose proof (block_loop_tame FNMAX CACHE T_START T_CONTENT T_EOA T_EOF H S I pos M HT HCACHE (pos s0)
                   fuel (mkRP S s0 out0 [] [] [] []) (RInv_init s0 out0 Hs) Hf) as Hb.
-    destruct (block_loop fuel (mkRP S s0 out0 [] [] [] [])) as [st [status|e|c]]; [|exact (proj2 Hb)|exact Hb].
+    destruct (block_loop fuel (mkRP S s0 out0 [] [] [] [])) as [st [status|e|c]]; [|left; exact (proj2 Hb)|exact Hb].
     destruct Hb as (_ & p & HKA & _).
     pose proof (cleanup_total T_START T_CONTENT T_EOA T_EOF H S st (rp_ids st) (rp_out st) []) as Hc.
     destruct (cleanup T_START T_CONTENT T_EOA T_EOF H S (rp_ids st) st (rp_out st) []) as [[out1 unf]|e|c].
     - pose proof (w_finalize_cases T_START T_CONTENT T_EOA T_EOF (fun f => f) out1) as Hw.
       destruct (w_finalize_with T_START T_CONTENT T_EOA T_EOF (fun f => f) out1) as [out2 [x|e|c]];
         [exact Logic.I|exact Hw|exact Hw].
-    - apply Hc. intros k v Hin. apply HKA. eapply In_HasKey; exact Hin.
+    - left. apply Hc. intros k v Hin. apply HKA. eapply In_HasKey; exact Hin.
     - apply Hc. intros k v Hin. apply HKA. eapply In_HasKey; exact Hin.
   Qed.
 
@@ -640,7 +647,7 @@ Section RepairMain.
   Proof.
     intros Hs Hf.
     pose proof (repair_total_strong fuel s0 out0 Hs ltac:(unfold remaining; lia)) as Hr.
-    destruct (repair fuel s0 out0) as [x|e|c]; [exact Logic.I| |exact Hr]. subst e. exact Logic.I.
+    destruct (repair fuel s0 out0) as [x|e|c]; [exact Logic.I| |exact Hr]. destruct Hr; subst e; exact Logic.I.
   Qed.
 
   (* allocation: whatever the loop returns (report or error), the four per-file tables are
